@@ -23,6 +23,10 @@ CHECKS = {
    text="All 100 element type pairs x batch_cast/load_as/store_as/broadcast_as/bitwise_cast(+round trip) on 22 architectures, sources around 2^24, 2^31, 2^32, 2^52, 2^53, 2^63 +-3, int->float halfway cases, halves, every float class, random; each converted element judged in TLC. 32-bit sources by lattice + random, not exhaustively."),
  "C08": dict(level="exploration", ref="6 C08", tech="TLC refinement check of the generic rounding constructions on mini-floats (K_RoundGeneric) + TLC trace validation of ceil/floor/trunc/round/nearbyint/rint/nearbyint_as_int/to_int on all ISAs",
    text="K_RoundGeneric: TLC checks that xsimd's conversion-based trunc, ceil/floor correction, round-via-ceil and add-and-subtract nearbyint equal IEEE RoundInt on EVERY datum of two 8-bit formats. Conformance: per-binade k, k+-ulp, k+1/2(+-ulp), thresholds 2^22..2^24, 2^51..2^53, 2^31, 2^63, 0.49999997, specials and random bit patterns on 22 architectures, judged by IEEE.RoundInt/FloatToIntNear in TLC (zero results compared as numbers)."),
+ "C05": dict(level="model_checking", ref="6 C05", tech="TLC model checking of permutation laws and kernel transcriptions (K_Compress, K_ExtractPair, K_Rotate) + TLC trace validation of generated template instantiations and run-time data-movement forms on every accepted (type, ISA) pair",
+   text="Design level: TLC enumerates every rotate/extract count, every mask and (n<=4) every index vector on token registers and checks the index-map laws and three kernel transcriptions. Conformance: ~13k generated template instantiations per quick run (constant swizzle/shuffle masks from structured families incl. fast-path patterns and near misses, slide/rotate/insert counts; thorough: all counts, all 4-lane swizzles), all compress/expand masks up to 8 (16) lanes, every extract_pair count, zip, run-time swizzle, transpose on every (type, architecture) combination the library accepts (measured acceptance matrix; assert-aborting combinations excluded); every result lane judged against Perm.tla in TLC. Index vectors of wide batches are sampled."),
+ "C09": dict(level="exploration", ref="6 C09", tech="TLC bag model of reduction trees (K_Reduce) + TLC trace validation of reduce_add/max/min, reduce(f), haddp with witnesses placed in every lane, on every accepted (type, ISA) pair",
+   text="K_Reduce: TLC checks that the generic halving tree (n = 2..64) and the sse2 8/16-bit max/min tree deliver every lane token (exactly once for add-like trees). Conformance: zero-except-lane-k, all-ones-except-lane-k, rotated ramps, extreme at lane k, distinct powers, signed zeros, exactly-summable and random rows for every lane k; integers judged by the fold, floats exactly when every partial sum is representable and otherwise by the (n-1)-roundings bound, in TLC."),
 }
 NOT_YET = {}
 props = [json.loads(l) for l in open(os.path.join(V, "properties.jsonl"))]
